@@ -94,12 +94,16 @@ void FunctorManager::rollback()
     return;
   if (_backed)
   {
-    /* revert last change, restoring the backed up */
-    if (_declarations.back().functor->name == _backed->name &&
-            _declarations.back().functor->params.size() == _backed->params.size())
+    /* revert last change, restoring the backed up: the replaced entry is
+     * not necessarily the last one */
+    for (Entry& e : _declarations)
     {
-      _declarations.back().functor.swap(_backed);
-      return;
+      if (e.functor->name == _backed->name &&
+              e.functor->params.size() == _backed->params.size())
+      {
+        e.functor.swap(_backed);
+        return;
+      }
     }
   }
   else
